@@ -258,8 +258,8 @@ func (f *IPTables) delChain(t *table, c string) error {
 	if !ok {
 		return errNoChain(c)
 	}
-	if builtinChains[c] && len(rs) == 0 {
-		return nil // iptables-nft: an empty base chain is dropped and re-created on demand, no visible effect
+	if builtinChains[c] {
+		return &Error{ErrBuiltin, fmt.Sprintf("iptables: No chain/target/match by that name. (builtin chain %s)", c)}
 	}
 	if len(rs) != 0 || referenced(t, c) {
 		return &Error{ErrBusy, fmt.Sprintf("iptables v1.8.9 (nf_tables):  CHAIN_DEL failed (Device or resource busy): chain %s", c)}
